@@ -143,12 +143,13 @@ mod kernel_harnesses {
             ) => {
                 if p1 != p2 {
                     assert!(a2 == Some(a.clone()) && b2 == Some(b.clone()));
-                } else if v1 == v2 {
-                    assert!(a2.is_none() && b2.is_none());
                 } else if t1 < t2 {
                     assert!(a2.is_none() && b2 == Some(b.clone()));
                 } else if t1 > t2 {
                     assert!(b2.is_none() && a2 == Some(a.clone()));
+                } else if v1 == v2 {
+                    // identical modifications: nothing more is needed, or one of them is kept
+                    assert!(!(a2.is_some() && b2.is_some()));
                 } else {
                     // tie: exactly one survives, and it is the same one whichever side it arrives on
                     assert!(a2.is_some() != b2.is_some());
